@@ -277,6 +277,26 @@ def run(ctx):
                       how="calls to region-opening methods are made outside the caller's writing region", where=where(fm, c))
     ctx.floor("R05.4", "calls_to_region_opening_methods", n_reg, 3)
 
+    # a transaction that failed and was rolled back must reach the caller as an exception: a handler that turns it into a normal return
+    # acknowledges a write that is not there (Study.tell ignores the boolean of set_trial_state_values)
+    n_h = 0
+    for mname, fm in sorted(rdb.methods.items()):
+        if not written_regions.get(mname):
+            continue
+        for h in own_nodes(fm.node):
+            if not isinstance(h, ast.ExceptHandler):
+                continue
+            n_h += 1
+            reraises = any(isinstance(x, ast.Raise) for st in h.body for x in ast.walk(st))
+            names = set(handler_names(h.type)) if h.type is not None else {"BaseException"}
+            ctx.check(reraises or names <= {"IntegrityError"}, "R05.4", fm.short, f"failed-transaction-not-acknowledged:{'|'.join(sorted(names))}",
+                      message=f"RDBStorage.{mname} catches {sorted(names)} around its transaction and returns normally: when the transaction failed and was rolled back "
+                              f"(lock timeout, lost connection, StorageInternalError from the session scope) the call still returns - e.g. False from "
+                              f"set_trial_state_values, which Study.tell ignores - so a finishing write is acknowledged although nothing was stored",
+                      how="only sqlalchemy IntegrityError (the uniqueness race with a defined outcome) is turned into a return value; everything else propagates",
+                      where=where(fm, h))
+    ctx.floor("R05.4", "handlers_in_rdb_writers", n_h, 2)
+
     # who may commit / roll back: only the scoped-session context manager
     def session_txn_calls(prog, modname):
         out = []
@@ -305,6 +325,9 @@ def run(ctx):
     ctx.rule("R05.5", "journal file lock released on every exit (shared with C07 R07.3)")
     J.rule_release(ctx, "R05.5")
     J.rule_write_under_lock(ctx, "R05.5")
+    ctx.rule("R05.8", "readers survive a torn last record: a line without its newline is skipped (the deferred error is raised only for a further line inside the "
+             "size snapshot), and what the reader accepts / caches is what R07.4 / R07.5 state")
+    J.rule_reader_guards(ctx, "R05.8", "R05.8")
     ctx.rule("R05.7", "a survivor that loses the race for a dead holder's lock keeps waiting: whatever the removal routine raises is caught around the take-over call")
     J.rule_takeover_lost_race(ctx, "R05.7")
 
